@@ -3,7 +3,7 @@ from __future__ import annotations
 
 import ast
 
-from ..fdai import Interp, PyRaise, Unknown, explore, freeze, Imprecise
+from ..fdai import Interp, PyRaise, Unknown, explore, freeze, Imprecise, cmp_outcome
 from ..loader import AnchorError, is_self_attr, short, src, walk_no_nested
 from ..locks import LockAnalysis, regions
 from ..resolve import Resolver
@@ -204,10 +204,12 @@ def run(p, led, tier):
         led.fail("C09-R6", key, where(renew, renew.node), f"a terminated lifecycle is renewed on {len(bad)}/{len(paths)} path(s)")
     else:
         led.ok("C09-R6", key, where(renew, renew.node), f"{len(paths)} path(s): nothing written, False returned")
-    limits = [("record_error", "error_threshold", "error limit"), ("check_timeouts", "max_lifetime", "lifetime limit"), ("check_timeouts", "idle_timeout", "idle limit")]
-    for mname, needle, what in limits:
+    limits = [("record_error", ("_error_count", "error_threshold"), "error limit"), ("check_timeouts", ("_started_at", "max_lifetime_hours"), "lifetime limit"),
+              ("check_timeouts", ("_last_activity", "idle_timeout_minutes"), "idle limit")]
+    for mname, (a_n, b_n), what in limits:
+        needle = b_n
         paths = table[(mname, "ACTIVE")]
-        hit = [r for _, r in paths if any(needle in d[0] and ("=" in d[0] or ">" in d[0]) and d[1] for d in r["decisions"] if _is_limit_test(d[0], needle))]
+        hit = [r for _, r in paths if any(cmp_outcome(d, a_n, b_n) in ("ge", "gt") for d in r["decisions"])]
         key = f"Telomere.{mname} ▸ {what} reached ▸ from ACTIVE"
         m = p.find_method(tel, mname)
         if not hit:
